@@ -48,15 +48,30 @@ static hwloc_topology_t reload(Case &c, const std::string &X, unsigned long flag
 
 void h_init_parent() { const char *e = getenv("HWLOC_LIBXML_EXPORT"), *i = getenv("HWLOC_LIBXML_IMPORT"); nolibxml_export = e && !strcmp(e, "0"); nolibxml_import = i && !strcmp(i, "0"); }
 
+static std::string g_src_text;
 void h_run(Case &c) {
   g_c = &c; ops_xml_safe = true; Draw &d = c.head;
   c.descf("[export=%s import=%s] ", nolibxml_export ? "nolibxml" : "libxml2", nolibxml_import ? "nolibxml" : "libxml2");
   SpecOpts so; so.misc_keep = d.chance(2, 3); so.syn.max_pus = 48; so.xml_den = 4;
   TopoSpec sp = gen_topospec(d, so); sp.flags &= ~(unsigned long)(HWLOC_TOPOLOGY_FLAG_IMPORT_SUPPORT | HWLOC_TOPOLOGY_FLAG_NO_DISTANCES | HWLOC_TOPOLOGY_FLAG_NO_MEMATTRS | HWLOC_TOPOLOGY_FLAG_NO_CPUKINDS);   // NO_* flags make the importer drop what was added after load, by design (pitfall 9.31)
   if (sp.is_xml && d.chance(1, 2)) { sp.filters[HWLOC_OBJ_PCI_DEVICE] = sp.filters[HWLOC_OBJ_OS_DEVICE] = sp.filters[HWLOC_OBJ_BRIDGE] = HWLOC_TYPE_FILTER_KEEP_ALL; }
+  // attribute value ranges the corpus does not contain (seeded change C05): PCI domains above 0xffff (32-bit domains exist: 2pa-pcidomain32bits),
+  // large PCI bus numbers, by rewriting the corpus document before it becomes "the loaded topology"
+  std::string tmpxml; g_src_text.clear();
+  if (sp.is_xml && sp.filters[HWLOC_OBJ_PCI_DEVICE] == HWLOC_TYPE_FILTER_KEEP_ALL) { FILE *fh = fopen(sp.xmlpath.c_str(), "rb"); if (fh) { char b[65536]; size_t n; while ((n = fread(b, 1, sizeof b, fh)) > 0) g_src_text.append(b, n); fclose(fh); } }
+  if (sp.is_xml && sp.filters[HWLOC_OBJ_PCI_DEVICE] == HWLOC_TYPE_FILTER_KEEP_ALL && d.chance(1, 2)) {
+    std::string x = g_src_text;
+    static const char *dom[] = {"10000", "1a2b3", "fffff", "7fffffff", "ffffffff"}; std::string nd = d.pick(dom); size_t hits = 0;
+    for (const char *key : {"pci_busid=\"0000:", "bridge_pci=\"0000:"}) { size_t p = 0, kl = strlen(key); while ((p = x.find(key, p)) != std::string::npos) { x.replace(p + kl - 5, 4, nd); p += kl; hits++; } }
+    if (hits && x.size() < 4000000) { tmpxml = std::string(h_workdir()) + strf("/c05src.%d.xml", (int)getpid()); FILE *o = fopen(tmpxml.c_str(), "wb"); fwrite(x.data(), 1, x.size(), o); fclose(o); c.descf("(PCI domain rewritten to 0x%s in %zu attributes of %s) ", nd.c_str(), hits, sp.xmlpath.substr(sp.xmlpath.rfind('/') + 1).c_str()); sp.xmlpath = tmpxml; g_src_text = x; c.cls("source:pci-domain-above-16-bits"); }
+  }
   c.desc(sp.text());
   hwloc_topology_t t; hwloc_topology_init(&t);
-  if (apply_spec_and_load(c, t, sp) < 0) { hwloc_topology_destroy(t); c.discard(); }
+  if (apply_spec_and_load(c, t, sp) < 0) { hwloc_topology_destroy(t); if (!tmpxml.empty()) unlink(tmpxml.c_str()); c.discard(); }
+  if (!tmpxml.empty()) unlink(tmpxml.c_str());
+  // import fidelity on hwloc's own documents: with all I/O types kept, every PCI device element of the document is in the loaded topology
+  if (sp.is_xml && sp.filters[HWLOC_OBJ_PCI_DEVICE] == HWLOC_TYPE_FILTER_KEEP_ALL && !g_src_text.empty()) { size_t n = 0, p = 0; while ((p = g_src_text.find("<object type=\"PCIDev\"", p)) != std::string::npos) { n++; p += 10; }
+    CHECK(c, (size_t)hwloc_get_nbobjs_by_type(t, HWLOC_OBJ_PCI_DEVICE) == n, "import_keeps_objects", "the document has %zu PCIDev elements, the topology loaded with all I/O types kept has %d PCI devices", n, hwloc_get_nbobjs_by_type(t, HWLOC_OBJ_PCI_DEVICE)); }
   bool special = false, nt = false;
   // modifying history (distances, memattrs, cpukinds, Groups, restrict, allow, Misc ...)
   OpOpts oo; { const char *e = getenv("VERIF_INCLUDE_KNOWN"); oo.allow_cpuless_nodeset_group = e && strstr(e, "F-C02-d"); }
